@@ -701,7 +701,7 @@ func (g *gen) listExpr(d int) string {
 	case 5:
 		return "sorted(" + g.listExpr(d-1) + ")"
 	case 6:
-		return g.paren(g.listExpr(d-1) + " if " + g.boolExpr(d-1) + " else []")
+		return "(" + g.listExpr(d-1) + " if " + g.boolExpr(d-1) + " else [])"
 	default:
 		return "[" + g.items(g.rng.Intn(4), func() string { return g.strExpr(d - 1) }) + "]"
 	}
@@ -789,8 +789,10 @@ func (g *gen) program() []byte {
 			if g.rng.Bool() {
 				args = append(args, "c:list&cs&old_c=[]")
 			}
-			if g.rng.Bool() {
+			if g.rng.Chance(12) { // buildtools rejects an alias without a type annotation (asp accepts it)
 				args = append(args, "d"+g.sp()+"&"+g.sp()+"dd = "+g.strLit())
+			} else if g.rng.Bool() {
+				args = append(args, "d"+g.sp()+":"+g.sp()+"str"+g.sp()+"&"+g.sp()+"dd = "+g.strLit())
 			}
 			ret := ""
 			if g.rng.Bool() {
